@@ -708,7 +708,86 @@ func newMemEv(c *TrieCase) Ev {
 		"keys": b2i(keysSame), "vals": b2i(fmt.Sprintf("%#v", vals) == valsCopy), "optptrs": b2i(ptrSame), "optvals": b2i(valSame)}
 }
 
+// newMemCarvedEv: []byte values handed to encode.Bytes{Size: 4}, all carved out of ONE
+// caller-owned buffer, each with spare capacity reaching into its neighbour's bytes.  With
+// short = true some values are shorter than the declared size (a misuse the library may answer
+// with garbage or an error - but it must not write into the caller's buffer either way).
+// The whole backing buffer is compared before and after the build.
+func newMemCarvedEv(o4 [4]int, n int, short bool) Ev {
+	keys := []string{}
+	for i := 0; i < n; i++ {
+		keys = append(keys, fmt.Sprintf("k%03d", i))
+	}
+	backing := make([]byte, 4*n+16)
+	for i := range backing {
+		backing[i] = byte(0x41 + i%50)
+	}
+	vals := make([][]byte, n)
+	for i := range vals {
+		l := 4
+		if short && i%3 == 0 {
+			l = 1 + i%3
+		}
+		vals[i] = backing[4*i : 4*i+l] // len l, capacity to the end of the buffer
+	}
+	before := append([]byte{}, backing...)
+	lens := make([]int, n)
+	for i := range vals {
+		lens[i] = len(vals[i])
+	}
+	bools := make([]bool, 4)
+	ptrs := make([]*bool, 4)
+	for i := 0; i < 4; i++ {
+		if o4[i] != 2 {
+			bools[i] = o4[i] == 1
+			ptrs[i] = &bools[i]
+		}
+	}
+	opts := []trie.Opt{{DedupValue: ptrs[0], InnerPrefix: ptrs[1], LeafPrefix: ptrs[2], Complete: ptrs[3]}}
+	bb := append([]bool{}, bools...)
+	pan := ""
+	func() {
+		defer func() {
+			if r := recover(); r != nil {
+				pan = fmt.Sprint(r)
+			}
+		}()
+		trie.NewSlimTrie(encode.Bytes{Size: 4}, keys, vals, opts...)
+	}()
+	same := string(before) == string(backing)
+	for i := range vals {
+		if len(vals[i]) != lens[i] {
+			same = false
+		}
+	}
+	valSame := true
+	for i := range bools {
+		if bools[i] != bb[i] {
+			valSame = false
+		}
+	}
+	if short {
+		pan = "" // a panic on misused input is not what this event judges
+	}
+	carved := 1
+	if short {
+		carved = 2
+	}
+	return Ev{"ev": "newmem", "opt": o4[:], "nkeys": n, "enc": "b4", "pan": pan, "carved": carved,
+		"keys": 1, "vals": b2i(same), "optptrs": 1, "optvals": b2i(valSame)}
+}
+
 func genNewMem(t *Tracer, m *Meta, r *rand.Rand) {
+	for i, o4 := range [][4]int{{2, 2, 2, 2}, {0, 0, 0, 1}, {1, 0, 1, 0}, {0, 1, 0, 0}, {1, 2, 2, 1}, {0, 0, 0, 0}} {
+		for _, short := range []bool{false, true} {
+			t.NextCase()
+			m.Cases++
+			t.Emit(Ev{"ev": "case", "enc": "b4", "hist": []interface{}{}})
+			t.Emit(newMemCarvedEv(o4, 3+i*5, short))
+			m.Calls++
+		}
+	}
+	m.class("build-arguments:values-carved-from-one-buffer")
 	combos := [][4]int{}
 	for a := 0; a < 3; a++ {
 		for b := 0; b < 3; b++ {
@@ -938,6 +1017,12 @@ func (hr *histReplay) handle(t *Tracer, name string, e map[string]interface{}) b
 		t.Emit(Ev{"ev": "scribble", "target": e["target"], "pattern": pat})
 		return true
 	case "newmem":
+		if cv, ok := e["carved"]; ok && int(cv.(float64)) != 0 {
+			var o4 [4]int
+			copy(o4[:], toIntSlice(e["opt"]))
+			t.Emit(newMemCarvedEv(o4, gi("nkeys"), int(cv.(float64)) == 2))
+			return true
+		}
 		o := toIntSlice(e["opt"])
 		rr := rand.New(rand.NewSource(3))
 		n := gi("nkeys")
